@@ -12,13 +12,39 @@ WEIGHTS = {'newc': 1, 'newp': 0.4, 'cc': 4, 'cp': 3, 'pc': 3, 'pp': 4, 'remove':
 
 def make_cases(chk):
     n = 60 if chk.tier == 'quick' else 600
-    hi = 12 if chk.tier == 'quick' else 30
+    hi = 12 if chk.tier == 'quick' else 16     # the model's exact rationals grow with the length of a history: more histories, not longer ones
     gens = []
     for i in range(n):
         rng = random.Random(chk.seed * 100003 + 60000 + i)
         gens.append(gen.history(rng, rng.randint(6, hi), weights=WEIGHTS, trace=(i % 6 == 5)))
     
     return gens
+
+
+def directed_solids(chk):
+    """wells and containers that hold only solids (no volume at all when the configured solid density is infinite), then removals"""
+    out = []
+    for i in range(3):
+        rng = random.Random(chk.seed * 100003 + 62000 + i)
+        g = gen.Gen(rng, kinds=('Solid', 'Liquid'))
+        solids = [s for s in g.subs if s['kind'] == 'Solid']
+        if not solids:
+            continue
+        init = [(s['id'], gen.pick_qty(rng, rng.uniform(0.2, 1.0), 'g', sig=2)) for s in solids[:2]]
+        c = g.fresh()
+        g.emit({'op': 'newc', 'out': c, 'name': g.name(), 'init': init}, 'newc:solids-only')
+        g.containers.append(c)
+        p = g.new_plate(rows=2, cols=3)
+        whole = {'rect': [[0, 1], [0, 1, 2]]}
+        o1, o2 = g.fresh(), g.fresh()
+        g.emit({'op': 'transfer', 'src': {'c': c}, 'dst': {'p': p, 'r': whole}, 'q': {'v': '5', 'p': 'm', 'b': 'g'}, 'osrc': o1, 'odst': o2}, 'cp:solids-only')
+        for r, w in (({'rect': [[0], [0, 1]]}, {'s': solids[0]['id']}), ({'list': [[1, 2], [0, 2]]}, {'k': 'Solid'}), (whole, {'k': 'Solid'})):
+            n = g.fresh()
+            g.emit({'op': 'remove', 't': {'p': o2, 'r': r}, 'w': w, 'out': n}, 'remove:solids-only')
+        n = g.fresh()
+        g.emit({'op': 'remove', 't': {'c': o1}, 'w': {'k': 'Solid'}, 'out': n}, 'remove:solids-only')
+        out.append(g)
+    return out
 
 
 def nontrivial(prog, obs):
@@ -92,8 +118,9 @@ def recipe_nontrivial(prog, rg, out, qres):
 
 
 def run(chk, gate, status):
-    gens = make_cases(chk)
+    gens = directed_solids(chk) + make_cases(chk)
     cov = histcheck.run(chk, gens, oracles.c17, 'C17', RULE, nontrivial)
+    cov['operations_under_configuration_variants'] = histcheck.variants(chk, directed_solids(chk) + gens, oracles.c17, 'C17v', limit=12 if chk.tier == 'quick' else 60)
     rc = recipes.check(chk, 'C17r', recipe_cases(chk), recipe_oracle, RULE, recipe_nontrivial)
     cov['recipe_clause'] = {k: rc[k] for k in ('programs', 'queries', 'distinct_nontrivial', 'disagreements_checked', 'oracle_failures')}
     cov['evaluations'] += rc['evaluations']
